@@ -55,6 +55,47 @@ theorem zero_flow : inFromOut η inv rated 0 = 0 ∧ outFromIn η inv rated 0 = 
   unfold inFromOut outFromIn
   simp [fwd_zero]
 
+/-! ### The limited interpolated inverse (after the repair of D27) -/
+
+/-- Whatever the interpolant returns, the conversion hands on no more than it was given. -/
+theorem invC_bounds (v : Rat) : -|v| ≤ invC inv v ∧ invC inv v ≤ |v| := by
+  unfold invC; rw [rabs_eq_abs]
+  exact Feems.clamp_bounds (by linarith [abs_nonneg v]) _
+
+theorem invC_abs_le (v : Rat) : |invC inv v| ≤ |v| := abs_le.mpr (invC_bounds inv v)
+
+/-- Where the interpolant itself stays within the magnitude of its argument the limit changes nothing. -/
+theorem invC_eq_of_abs_le (v : Rat) (h : |inv v| ≤ |v|) : invC inv v = inv v := by
+  have h' := abs_le.mp h
+  unfold invC clamp; rw [rabs_eq_abs]
+  rw [if_neg (not_lt.mpr h'.1), if_neg (not_lt.mpr h'.2)]
+
+theorem invC_zero : invC inv 0 = 0 := by
+  have h := invC_bounds inv 0
+  simp only [abs_zero, neg_zero] at h
+  exact le_antisymm h.2 h.1
+
+/-- **No energy is created, in either conversion, in either direction, for every characteristic and
+every interpolant** (no hypothesis on `inv`: this is what the limit of D27 buys). Forward flow:
+supply ≥ delivery; reverse flow: the magnitude handed on is at most the magnitude received. -/
+theorem no_energy_created :
+    (∀ out, 0 ≤ out → out ≤ inFromOut η inv rated out) ∧
+    (∀ out, out < 0 → |inFromOut η inv rated out| ≤ |out|) ∧
+    (∀ inp, 0 < inp → |outFromIn η inv rated inp| ≤ |inp|) ∧
+    (∀ inp, inp ≤ 0 → outFromIn η inv rated inp ≤ inp) := by
+  refine ⟨?_, ?_, ?_, ?_⟩
+  · intro out h; unfold inFromOut; rw [if_pos h]; exact fwd_supply_ge_delivery η rated out h
+  · intro out h; unfold inFromOut; rw [if_neg (not_le.mpr h)]; exact invC_abs_le inv out
+  · intro inp h; unfold outFromIn; rw [if_pos h]; exact invC_abs_le inv inp
+  · intro inp h; unfold outFromIn; rw [if_neg (not_lt.mpr h)]; exact fwd_reverse_supply_ge_delivery η rated inp h
+
+/-- As found (D27) the raw interpolant was handed on: an interpolant that overshoots (as PCHIP does next to a
+curve point with 100 % efficiency) created energy. -/
+theorem legacy_creates_energy :
+    ∃ (inv : Rat → Rat) (v : Rat), v < 0 ∧ |v| < |invLegacy inv v| ∧ |invC inv v| ≤ |v| := by
+  refine ⟨fun v => v + v / 100000, -2000, by norm_num, ?_, invC_abs_le _ _⟩
+  unfold invLegacy; norm_num [abs_of_neg]
+
 /-- An inverse is *exact* when it inverts the forward map on reverse flows. -/
 def ExactInverse : Prop :=
   (∀ v, v < 0 → inv v ≤ 0 ∧ fwd η rated (inv v) = v) ∧ (∀ v, 0 < v → 0 ≤ inv v ∧ fwd η rated (inv v) = v)
@@ -72,6 +113,17 @@ theorem exact_inverse_no_energy (h : ExactInverse η inv rated) (v : Rat) :
     have := fwd_supply_ge_delivery η rated (inv v) h1
     linarith
 
+/-- An exact inverse is not touched by the limit. -/
+theorem invC_of_exact (h : ExactInverse η inv rated) (v : Rat) (hv : v ≠ 0) : invC inv v = inv v := by
+  apply invC_eq_of_abs_le
+  rcases lt_or_gt_of_ne hv with hneg | hpos
+  · have h1 := (h.1 v hneg).1
+    have h2 := (exact_inverse_no_energy η inv rated h v).1 hneg
+    rw [abs_of_nonpos h1, abs_of_neg hneg]; linarith
+  · have h1 := (h.2 v hpos).1
+    have h2 := (exact_inverse_no_energy η inv rated h v).2 hpos
+    rw [abs_of_nonneg h1, abs_of_pos hpos]; exact h2
+
 /-- … and the two conversions are mutually inverse (delivered → supplied → delivered). -/
 theorem roundtrip_exact (h : ExactInverse η inv rated) (x : Rat) (hinj : ∀ a b, fwd η rated a = fwd η rated b → a = b) :
     outFromIn η inv rated (inFromOut η inv rated x) = x := by
@@ -82,10 +134,10 @@ theorem roundtrip_exact (h : ExactInverse η inv rated) (x : Rat) (hinj : ∀ a 
     · subst hx0; simp [fwd_zero]
     · have hpos : 0 < x := lt_of_le_of_ne hx (Ne.symm hx0)
       have hf : 0 < fwd η rated x := lt_of_lt_of_le hpos (fwd_supply_ge_delivery η rated x hx)
-      rw [if_pos hf]
+      rw [if_pos hf, invC_of_exact η inv rated h _ hf.ne']
       exact hinj _ _ (h.2 _ hf).2
   · have hneg : x < 0 := not_le.mp hx
-    rw [if_neg hx]
+    rw [if_neg hx, invC_of_exact η inv rated h _ hneg.ne]
     have := (h.1 x hneg)
     rw [if_neg (not_lt.mpr this.1)]
     exact this.2
@@ -117,8 +169,9 @@ theorem strict_zero_residual (x pin : Rat) (h : x - pin * effHat η (load rated 
   rw [div_eq_iff (effHat_pos η _).ne']; linarith
 
 /-- Array evaluation = element-wise scalar evaluation: the two dispatches differ only at exactly
-zero, where both give zero as soon as the inverse maps 0 to 0. -/
-theorem array_eq_scalar (h0 : inv 0 = 0) (out : Rat) :
+zero, where both give zero (the limited inverse maps 0 to 0 whatever the interpolant says; before
+D27 this needed `inv 0 = 0`, and the code returned 1e-19). -/
+theorem array_eq_scalar (out : Rat) :
     inFromOutArr η inv rated out = inFromOut η inv rated out := by
   unfold inFromOutArr inFromOut
   by_cases h : 0 < out
@@ -126,7 +179,7 @@ theorem array_eq_scalar (h0 : inv 0 = 0) (out : Rat) :
   · rw [if_neg h]
     by_cases h' : 0 ≤ out
     · have : out = 0 := le_antisymm (not_lt.mp h) h'
-      subst this; rw [if_pos (le_refl _), h0, fwd_zero]
+      subst this; rw [if_pos (le_refl _), invC_zero, fwd_zero]
     · rw [if_neg h']
 
 /-! ### Serial trains -/
@@ -182,7 +235,7 @@ theorem roundtrip_exact' (h : ExactInverse η inv rated) (x : Rat)
     inFromOut η inv rated (outFromIn η inv rated x) = x := by
   unfold outFromIn inFromOut
   by_cases hx : 0 < x
-  · rw [if_pos hx, if_pos (h.2 x hx).1]
+  · rw [if_pos hx, invC_of_exact η inv rated h _ hx.ne', if_pos (h.2 x hx).1]
     exact (h.2 x hx).2
   · rw [if_neg hx]
     have hx' : x ≤ 0 := not_lt.mp hx
@@ -191,7 +244,7 @@ theorem roundtrip_exact' (h : ExactInverse η inv rated) (x : Rat)
     · have hx0 : x = 0 := by linarith
       subst hx0
       rw [fwd_zero, if_pos (le_refl _), fwd_zero]
-    · rw [if_neg hf]
+    · rw [if_neg hf, invC_of_exact η inv rated h _ (not_le.mp hf).ne]
       exact hinj _ _ (h.1 _ (not_le.mp hf)).2
 
 /-- For every role the two conversions of an electric machine are mutually inverse
